@@ -178,4 +178,80 @@ theorem sq_spec (S : Skel τ α) (hS : S.Good) : ∀ f, SpecSub S f ∧ SpecFilt
         | star => simp
         | other => simp
 
+/-! ## fuel monotonicity and independence -/
+
+theorem PRes.bind_mono {β γ : Type} {x x' : PRes β} {g g' : β → PRes γ}
+    (hx : x ≠ .oof → x' = x) (hg : ∀ b, g b ≠ .oof → g' b = g b) (h : x.bind g ≠ .oof) :
+    x'.bind g' = x.bind g := by
+  cases x with
+  | ok b => rw [hx (by simp)]; simp only [PRes.bind_ok] at h ⊢; exact hg b h
+  | err => rw [hx (by simp)]; rfl
+  | panic => rw [hx (by simp)]; rfl
+  | oof => exact absurd rfl h
+
+theorem sq_mono (S : Skel τ α) : ∀ f,
+    (∀ toks d, sqSub S f toks d ≠ .oof → sqSub S (f+1) toks d = sqSub S f toks d) ∧
+    (∀ toks d, sqFilter S f toks d ≠ .oof → sqFilter S (f+1) toks d = sqFilter S f toks d) ∧
+    (∀ res cur toks d, sqLoop S f res cur toks d ≠ .oof → sqLoop S (f+1) res cur toks d = sqLoop S f res cur toks d) := by
+  intro f
+  induction f with
+  | zero => simp [sqSub, sqFilter, sqLoop]
+  | succ f ih =>
+    obtain ⟨ihS, ihF, ihL⟩ := ih
+    refine ⟨?_, ?_, ?_⟩
+    · intro toks d h
+      cases toks with
+      | nil => simp [sqSub]
+      | cons t r =>
+        rw [sqSub] at h ⊢
+        conv => rhs; rw [sqSub]
+        try simp only at h ⊢
+        split
+        · rfl
+        · rename_i h1
+          simp only [h1, if_false] at h
+          split
+          · rename_i h2
+            simp only [h2, if_true] at h
+            exact PRes.bind_mono (ihF r (d+1)) (fun _ _ => rfl) h
+          · rename_i h2
+            simp only [h2, if_false] at h
+            split
+            · rename_i h3
+              simp only [h3, if_true] at h
+              exact PRes.bind_mono (ihS r d) (fun _ _ => rfl) h
+            · rfl
+    · intro toks d h
+      rw [sqFilter] at h ⊢
+      conv => rhs; rw [sqFilter]
+      exact PRes.bind_mono (ihS toks d) (fun b hb => ihL none b.1 b.2 d hb) h
+    · intro res cur toks d h
+      cases toks with
+      | nil => simp [sqLoop]
+      | cons t r =>
+        rw [sqLoop] at h ⊢
+        conv => rhs; rw [sqLoop]
+        try simp only at h ⊢
+        cases hk : S.kind t <;> simp only [hk] at h ⊢
+        · exact PRes.bind_mono (ihS r d) (fun b hb => ihL _ _ _ d hb) h
+        · exact PRes.bind_mono (ihS r d) (fun b hb => ihL _ _ _ d hb) h
+
+theorem sq_mono_le (S : Skel τ α) (f g : Nat) (hfg : f ≤ g) :
+    (∀ toks d, sqSub S f toks d ≠ .oof → sqSub S g toks d = sqSub S f toks d) ∧
+    (∀ toks d, sqFilter S f toks d ≠ .oof → sqFilter S g toks d = sqFilter S f toks d) ∧
+    (∀ res cur toks d, sqLoop S f res cur toks d ≠ .oof → sqLoop S g res cur toks d = sqLoop S f res cur toks d) := by
+  induction g with
+  | zero => have : f = 0 := by omega
+            subst this; exact ⟨fun _ _ _ => rfl, fun _ _ _ => rfl, fun _ _ _ _ _ => rfl⟩
+  | succ g ih =>
+    by_cases hfg' : f ≤ g
+    · obtain ⟨a, b, c⟩ := ih hfg'
+      obtain ⟨a', b', c'⟩ := sq_mono S g
+      refine ⟨?_, ?_, ?_⟩
+      · intro toks d h; rw [a' toks d (by rw [a toks d h]; exact h), a toks d h]
+      · intro toks d h; rw [b' toks d (by rw [b toks d h]; exact h), b toks d h]
+      · intro res cur toks d h; rw [c' res cur toks d (by rw [c res cur toks d h]; exact h), c res cur toks d h]
+    · have : f = g + 1 := by omega
+      subst this; exact ⟨fun _ _ _ => rfl, fun _ _ _ => rfl, fun _ _ _ _ _ => rfl⟩
+
 end SV.Parser
